@@ -36,6 +36,10 @@ class CollectionValue(GenericValue):
 
     def _get_changes(self) -> Iterator[Change]:
 
+        if self._new_value is undefined:
+            # no value could be recorded (UsageError in clone)
+            return
+
         if self._ast_node is None:
             elements = [None] * len(self._old_value)
         else:
